@@ -309,6 +309,10 @@ def run_batch(prof, base, total, jobs, cap_s, tag, tier="quick"):
             {"WAVESIM_REEXEC": "1"}), stdout=subprocess.PIPE, stderr=subprocess.STDOUT), outf))
     agg = new_agg()
     errors = []
+    cmds = {}
+    for j, (p, outf) in enumerate(procs):
+        cmds[outf] = [sys.executable, "-m", "wavesim.run", "worker", prof, str(base), str(j),
+                      str(jobs), str(len(range(j, total, jobs))), repr(deadline), outf, tier]
     for p, outf in procs:
         try:
             out, _ = p.communicate(timeout=cap_s + 600)
@@ -316,6 +320,19 @@ def run_batch(prof, base, total, jobs, cap_s, tag, tier="quick"):
             p.kill()
             out, _ = p.communicate()
             errors.append("worker timed out")
+        if p.returncode is not None and p.returncode < 0 and not os.path.exists(outf):
+            # killed by a signal (the interpreter itself crashed): one fresh
+            # process gets the same seeds again; a crash that is a function of
+            # the seeds will repeat and is then reported
+            print("NOTE: worker died with signal %d; its seeds are run again in a fresh process"
+                  % -p.returncode)
+            p = subprocess.Popen(cmds[outf], cwd=env.VERIF, env=env.pinned_env(
+                {"WAVESIM_REEXEC": "1"}), stdout=subprocess.PIPE, stderr=subprocess.STDOUT)
+            try:
+                out, _ = p.communicate(timeout=cap_s + 600)
+            except subprocess.TimeoutExpired:
+                p.kill()
+                out, _ = p.communicate()
         if p.returncode != 0 or not os.path.exists(outf):
             errors.append("worker exit %s: %s" % (p.returncode, (out or b"")[-1500:].decode(
                 "utf8", "replace")))
